@@ -68,41 +68,107 @@ func checkC02(c *km.Ctx) {
 		if extMap == nil {
 			r.AnchorLost("R-C02-1", "Permissions.Extensions store in GenSSHCertFileString")
 		} else {
-			_, fresh := extMap.(*ssa.MakeMap)
-			r.Add("R-C02-1", km.FuncName(fn), "extension map is private to the call", c.P.Pos(extMap.Pos()), "a map created in this call (never a shared/package-level map)", km.ValStr(extMap), fresh)
+			// the map is created in this call, or by a constructor of the module every return of which is a map made there
+			var maps_ []*ssa.MakeMap
+			fresh := false
+			if mk, ok := extMap.(*ssa.MakeMap); ok {
+				fresh = true
+				maps_ = append(maps_, mk)
+			} else if cl, idx := callRes(extMap); cl != nil && idx == 0 {
+				if g := km.StaticCallee(cl.Common()); g != nil && g.Blocks != nil && c.InModule(g) && len(g.Params) == 0 {
+					fresh = true
+					for _, rc := range s.RetCases(g) {
+						mk, ok := km.Unwrap(rc.Results[0]).(*ssa.MakeMap)
+						if !ok || mk.Parent() != g {
+							fresh = false
+							break
+						}
+						maps_ = append(maps_, mk)
+					}
+				}
+			}
+			r.Add("R-C02-1", km.FuncName(fn), "extension map is private to the call", c.P.Pos(extMap.Pos()), "a map created in this call, directly or by a parameterless constructor that returns a map it made (never a shared/package-level map)", km.ValStr(extMap), fresh)
 			nStd, okAll := 0, true
 			bad := ""
-			km.Instrs(fn, func(in ssa.Instruction) {
-				mu, ok := in.(*ssa.MapUpdate)
-				if !ok || km.Unwrap(mu.Map) != extMap {
-					return
+			// copy from customExtensions: key and value are the extracts of Next(Range(customExtensions))
+			fromCustom := func(v ssa.Value) bool {
+				ex, ok := km.Unwrap(v).(*ssa.Extract)
+				if !ok {
+					return false
 				}
-				if ks, ok := km.ConstString(mu.Key); ok {
-					vs, okv := km.ConstString(mu.Value)
-					if standardSSHExtensions[ks] && okv && vs == "" {
-						nStd++
-					} else {
-						okAll, bad = false, "constant extension "+ks
+				nx, ok := ex.Tuple.(*ssa.Next)
+				if !ok {
+					return false
+				}
+				rg, ok := nx.Iter.(*ssa.Range)
+				return ok && km.Unwrap(rg.X) == ssa.Value(custom)
+			}
+			// every use of the map (in the constructor and here) is classified
+			var holders []ssa.Value
+			for _, mk := range maps_ {
+				holders = append(holders, mk)
+			}
+			if len(maps_) > 0 && ssa.Value(maps_[0]) != extMap {
+				holders = append(holders, extMap)
+			}
+			nStdPerMap := map[ssa.Value]int{}
+			for _, h := range holders {
+				for _, ref := range *h.Referrers() {
+					switch x := ref.(type) {
+					case *ssa.MapUpdate:
+						if km.Unwrap(x.Map) != h {
+							okAll, bad = false, "map used as key/value at "+posOf(c, x)
+							continue
+						}
+						if ks, ok := km.ConstString(x.Key); ok {
+							vs, okv := km.ConstString(x.Value)
+							if standardSSHExtensions[ks] && okv && vs == "" {
+								nStdPerMap[h]++
+							} else {
+								okAll, bad = false, "constant extension "+ks
+							}
+							continue
+						}
+						if !fromCustom(x.Key) || !fromCustom(x.Value) {
+							okAll, bad = false, "extension from "+km.ValStr(x.Key)
+						}
+					case *ssa.Call:
+						name := km.CalleeFull(x.Common())
+						if i := strings.Index(name, "["); i > 0 {
+							name = name[:i]
+						}
+						switch {
+						case name == "maps.Copy" && len(x.Common().Args) == 2 && km.Unwrap(x.Common().Args[0]) == h && km.Unwrap(x.Common().Args[1]) == ssa.Value(custom):
+							// copies of the caller's entries
+						case name == "builtin:delete":
+							if ks, ok := km.ConstString(x.Common().Args[1]); !ok || standardSSHExtensions[ks] {
+								okAll, bad = false, "removes "+km.ValStr(x.Common().Args[1])
+							}
+						case name == "builtin:len":
+						default:
+							okAll, bad = false, "map handed to "+name
+						}
+					case *ssa.Return, *ssa.Lookup, *ssa.Range, *ssa.DebugRef:
+					case *ssa.Store:
+						if fa, ok := x.Addr.(*ssa.FieldAddr); !ok || fieldNameOf(fa) != "Extensions" {
+							okAll, bad = false, "map stored at "+posOf(c, x)
+						}
+					case *ssa.Phi, *ssa.MakeInterface, *ssa.ChangeType:
+						if km.Unwrap(x.(ssa.Value)) != extMap && x.(ssa.Value) != extMap {
+							okAll, bad = false, "map flows into "+km.ValStr(x.(ssa.Value))
+						}
+					default:
+						okAll, bad = false, sprintf("map used by %T at %s", ref, posOf(c, ref))
 					}
-					return
 				}
-				// copy from customExtensions: key and value are the extracts of Next(Range(customExtensions))
-				fromCustom := func(v ssa.Value) bool {
-					ex, ok := km.Unwrap(v).(*ssa.Extract)
-					if !ok {
-						return false
-					}
-					nx, ok := ex.Tuple.(*ssa.Next)
-					if !ok {
-						return false
-					}
-					rg, ok := nx.Iter.(*ssa.Range)
-					return ok && km.Unwrap(rg.X) == ssa.Value(custom)
+			}
+			// each constructor return must carry all five standard names
+			nStd = -1
+			for _, mk := range maps_ {
+				if nStd < 0 || nStdPerMap[mk] < nStd {
+					nStd = nStdPerMap[mk]
 				}
-				if !fromCustom(mu.Key) || !fromCustom(mu.Value) {
-					okAll, bad = false, "extension from "+km.ValStr(mu.Key)
-				}
-			})
+			}
 			r.Add("R-C02-1", km.FuncName(fn), "extension entries", c.P.Pos(extMap.Pos()), "exactly the five standard names (empty value) plus entries copied from the customExtensions parameter", sprintf("standard=%d other-ok=%v %s", nStd, okAll, bad), nStd == 5 && okAll)
 		}
 	}
